@@ -671,8 +671,10 @@ func goMajorMinor(v string) string {
 		return ""
 	}
 	if !strings.HasPrefix(x, ".") {
-		// A version without a minor part, such as go1 (the tag of Go 1.0).
-		return "go" + maj
+		// A version without a minor part, such as go1 (the tag of Go 1.0):
+		// the same language version as go1.0.x, and it must not tie with
+		// it when buckets are sorted.
+		return "go" + maj + ".0"
 	}
 	x = x[1:]
 	min, _, ok := cutInt(x)
